@@ -3,7 +3,7 @@
 use crate::api::{cfg, cfg_from_json, cfg_json};
 use crate::conv::yuv_samples;
 use crate::engine::*;
-use crate::oracle::{self, ALL_MC};
+use crate::oracle::{self, ALL_CP, ALL_MC, ALL_TC};
 use serde_json::{json, Value};
 use yuvxyb::{
     ColorPrimaries as CP, Frame, LinearRgb, MatrixCoefficients as MC, Pixel, Plane, Rgb, TransferCharacteristic as TC, Xyb, Yuv, YuvConfig,
@@ -446,6 +446,136 @@ pub fn cases(ctx: &Ctx) -> Vec<Case> {
     out
 }
 
+fn new_yuv8(w: usize, h: usize, ss: (u8, u8), c: YuvConfig) -> Result<YuvConfig, String> {
+    let (cw, ch) = (w >> ss.0, h >> ss.1);
+    let planes = [Plane::<u8>::new(w, h, 0, 0, 0, 0), Plane::<u8>::new(cw, ch, ss.0 as usize, ss.1 as usize, 0, 0), Plane::<u8>::new(cw, ch, ss.0 as usize, ss.1 as usize, 0, 0)];
+    match catch(|| Yuv::<u8>::new(Frame { planes }, c).map(|y| y.config())) {
+        Ok(Ok(c)) => Ok(c),
+        Ok(Err(e)) => Err(format!("Yuv::new rejected a well-formed frame: {e:?}")),
+        Err(p) => Err(format!("panic: {p}")),
+    }
+}
+
+/// Subsampled frames whose luma size and chroma size fall on different sides of the thresholds: the heuristic is
+/// stated on the image's width and height (the luma size)
+fn subsampled_sizes(ctx: &Ctx, st: &mut Stats) -> Vec<Violation> {
+    let sizes: [(usize, usize); 16] = [(1280, 4), (1284, 4), (1276, 4), (2560, 4), (2556, 8), (4, 480), (4, 488), (4, 484), (4, 576), (8, 580), (4, 960), (4, 976), (4, 1152), (4, 1156), (4, 1280), (640, 4)];
+    let mut jobs = Vec::new();
+    for ss in [(1u8, 0u8), (1, 1), (0, 1), (2, 0), (2, 2)] {
+        for (w, h) in sizes {
+            for m in ALL_MC {
+                jobs.push((ss, w, h, m));
+            }
+        }
+    }
+    par_sweep(ctx, st, jobs.len() as u64, |lo, hi, st| {
+        for j in lo..hi {
+            let (ss, w, h, m) = jobs[j as usize];
+            for subset in 1..8u8 {
+                let c = cfg(
+                    if subset & 1 != 0 { MC::Unspecified } else { m },
+                    if subset & 4 != 0 { TC::Unspecified } else { TC::BT470BG },
+                    if subset & 2 != 0 { CP::Unspecified } else { CP::Film },
+                    8,
+                    j % 2 == 0,
+                    ss,
+                );
+                let want = resolve_yuv(&c, w, h);
+                let mk = |msg: String| Violation { signature: "C15:subsampled".into(), message: msg, case: json!({"prop":"C15","part":"subsampled","w":w,"h":h,"cfg":cfg_json(&c)}) };
+                match new_yuv8(w, h, ss, c) {
+                    Err(e) => return Some(mk(format!("{e}; {w}x{h} frame, cfg {}", cfg_json(&c)))),
+                    Ok(got) => {
+                        if got != want {
+                            return Some(mk(format!("Yuv::new on a {w}x{h} frame with subsampling {:?}: config() resolved to {} but the documented heuristic (on the image's width and height) gives {}", ss, cfg_json(&got), cfg_json(&want))));
+                        }
+                    }
+                }
+                // the conversion entry point resolves the same way
+                let rgb = Rgb::new(vec![[0.5f32, 0.4, 0.3]; w * h], w, h, TC::BT470BG, CP::Film).unwrap();
+                if let Ok(Ok(y)) = catch(|| Yuv::<u8>::try_from((&rgb, c))) {
+                    if y.config() != want {
+                        return Some(mk(format!("(&Rgb,cfg)->Yuv on a {w}x{h} image with subsampling {:?}: config() resolved to {} but the documented heuristic gives {}", ss, cfg_json(&y.config()), cfg_json(&want))));
+                    }
+                }
+                st.comparisons += 2;
+            }
+            st.evaluations += 1;
+            st.nontrivial_by_construction += 1;
+            st.class("subsampled_threshold_frames", 1);
+        }
+        None
+    })
+}
+
+/// Two-step histories: every ordered pair (A, B) of configs with at least one Unspecified field, Yuv::new(A) directly
+/// followed by Yuv::new(B) on the same thread and the same frame size; B must resolve as the heuristic says whatever
+/// A was ("a pure function of config and dimensions"). Complete over the 714^2 pairs, at two sizes.
+fn pair_histories(ctx: &Ctx, st: &mut Stats) -> Vec<Violation> {
+    let mut cfgs: Vec<YuvConfig> = Vec::new();
+    for m in ALL_MC {
+        for p in ALL_CP {
+            for t in ALL_TC {
+                if m == MC::Unspecified || p == CP::Unspecified || t == TC::Unspecified {
+                    cfgs.push(cfg(m, t, p, 8, false, (0, 0)));
+                }
+            }
+        }
+    }
+    let n = cfgs.len() as u64;
+    let sizes = [(4usize, 480usize), (1280, 2)];
+    let out = par_sweep(ctx, st, n * sizes.len() as u64, |lo, hi, st| {
+        for j in lo..hi {
+            let a = cfgs[(j % n) as usize];
+            let (w, h) = sizes[(j / n) as usize];
+            for b in &cfgs {
+                let _ = new_yuv8(w, h, (0, 0), a);
+                let want = resolve_yuv(b, w, h);
+                let got = new_yuv8(w, h, (0, 0), *b);
+                if got.as_ref().ok() != Some(&want) {
+                    return Some(Violation {
+                        signature: "C15:pair-history".into(),
+                        message: format!("Yuv::new on a {w}x{h} frame with config {} right after Yuv::new with config {} on the same thread gives {:?}; the documented heuristic gives {} (the resolution must be a pure function of config and dimensions)", cfg_json(b), cfg_json(&a), got.map(|c| cfg_json(&c)), cfg_json(&want)),
+                        case: json!({"prop":"C15","part":"pair","w":w,"h":h,"first":cfg_json(&a),"cfg":cfg_json(b)}),
+                    });
+                }
+            }
+            st.comparisons += n;
+            st.evaluations += 1;
+            st.nontrivial_by_construction += 1;
+            st.class("pair_history_rows", 1);
+        }
+        None
+    });
+    if out.is_empty() {
+        st.exhaustive_parts.push(format!("all {n}^2 ordered pairs of configs with at least one Unspecified field as two-step Yuv::new histories, at 4x480 and 1280x2"));
+    }
+    out
+}
+
+fn replay_part(v: &Value) -> Result<(), String> {
+    let g = |k: &str| v.get(k).and_then(|x| x.as_u64()).map(|x| x as usize).ok_or_else(|| k.to_string());
+    let (w, h) = (g("w")?, g("h")?);
+    let c = cfg_from_json(v.get("cfg").ok_or("cfg")?).ok_or("cfg")?;
+    if let Some(a) = v.get("first").and_then(cfg_from_json) {
+        // a fresh thread: process-wide state aside, the two calls follow each other directly
+        return std::thread::spawn(move || {
+            let _ = new_yuv8(w, h, (0, 0), a);
+            let want = resolve_yuv(&c, w, h);
+            match new_yuv8(w, h, (0, 0), c) {
+                Ok(got) if got == want => Ok(()),
+                other => Err(format!("second call gives {:?}, heuristic {}", other.map(|c| cfg_json(&c)), cfg_json(&want))),
+            }
+        })
+        .join()
+        .map_err(|_| "panicked".to_string())?;
+    }
+    let want = resolve_yuv(&c, w, h);
+    match new_yuv8(w, h, (c.subsampling_x, c.subsampling_y), c) {
+        Ok(got) if got == want => Ok(()),
+        other => Err(format!("Yuv::new gives {:?}, heuristic {}", other.map(|c| cfg_json(&c)), cfg_json(&want))),
+    }
+}
+
 pub fn run(ctx: &Ctx, st: &mut Stats) -> Vec<Violation> {
     let cs = cases(ctx);
     let n = cs.len();
@@ -461,10 +591,20 @@ pub fn run(ctx: &Ctx, st: &mut Stats) -> Vec<Violation> {
         "enumeration of {n} cases: widths {{1,2,16,1279,1280,1281}} x heights {{1,2,479..=489,575..=577,1279..=1281}} x matrices (all 15 for Yuv::new) x the 8 subsets of {{matrix, primaries, transfer}} left Unspecified x 8 constructors/conversions{}, plus 16 common picture sizes (176x144 .. 3840x2160) x 15 matrices x 8 subsets through Yuv::new",
         if ctx.quick() { " (conversions of frames above 40,000 pixels are left to the thorough tier)" } else { "" }
     ));
+    let mut out = out;
+    if out.is_empty() {
+        out.extend(subsampled_sizes(ctx, st));
+    }
+    if out.is_empty() {
+        out.extend(pair_histories(ctx, st));
+    }
     out
 }
 
 pub fn replay(v: &Value) -> Result<(), String> {
+    if v.get("part").is_some() {
+        return replay_part(v);
+    }
     let op = OPS.iter().copied().find(|o| Some(op_name(*o)) == v.get("op").and_then(|s| s.as_str())).ok_or("op")?;
     let c = Case {
         op,
@@ -478,4 +618,4 @@ pub fn replay(v: &Value) -> Result<(), String> {
     check(&c, &mut Stats::new()).map_err(|v| v.message)
 }
 
-pub const RULE: &str = "enumeration: widths {1,2,16,1279,1280,1281} x heights {1,2,479..=489,575..=577,1279..=1281} x matrices x the 8 subsets of {matrix, primaries, transfer} set to Unspecified x {Yuv::new, Rgb::new, (LinearRgb|Xyb,t,p)->Rgb, (&Rgb|Rgb|LinearRgb|Xyb,cfg)->Yuv} (thorough: depths 8/10/16, random colour content, conversions of large frames). Oracle: (i) no accessor returns Unspecified; (ii) the resolved values equal the heuristic re-implemented from the statement, are the same on a second call and for other sample data; (iii) label = content: converting the same input with the stored (resolved) config given explicitly yields the same samples within max(1, 1.5% of the code range), and decoding the output with its own config and re-encoding reproduces them within the same budget. Frames handed to Yuv::new are also built with Plane::new paddings (storage geometry must not matter); every case is preceded by a call on the transposed shape (equal area) and by a sibling call with the same size and given metadata but another range/depth (no state may leak between calls); conversions are also preceded by the same conversion under other primaries and compared with the same conversion on a fresh thread. Conversions that fail are counted, not judged. A case = one (operation, size, config) triple; non-trivial = at least one field Unspecified; distinct by construction (hash of the case)";
+pub const RULE: &str = "enumeration: widths {1,2,16,1279,1280,1281} x heights {1,2,479..=489,575..=577,1279..=1281} x matrices x the 8 subsets of {matrix, primaries, transfer} set to Unspecified x {Yuv::new, Rgb::new, (LinearRgb|Xyb,t,p)->Rgb, (&Rgb|Rgb|LinearRgb|Xyb,cfg)->Yuv} (thorough: depths 8/10/16, random colour content, conversions of large frames). Oracle: (i) no accessor returns Unspecified; (ii) the resolved values equal the heuristic re-implemented from the statement, are the same on a second call and for other sample data; (iii) label = content: converting the same input with the stored (resolved) config given explicitly yields the same samples within max(1, 1.5% of the code range), and decoding the output with its own config and re-encoding reproduces them within the same budget. Frames handed to Yuv::new are also built with Plane::new paddings (storage geometry must not matter); every case is preceded by a call on the transposed shape (equal area) and by a sibling call with the same size and given metadata but another range/depth (no state may leak between calls); conversions are also preceded by the same conversion under other primaries and compared with the same conversion on a fresh thread. In addition: subsampled frames (4:2:2, 4:2:0, 4:4:0, 4:1:1, 4:1:0) whose luma and chroma sizes fall on different sides of the thresholds (16 sizes x 15 matrices x 7 subsets, Yuv::new and (&Rgb,cfg)->Yuv), and all 714^2 ordered pairs of configs with an Unspecified field as two-step Yuv::new histories on one thread at two sizes (the second call must resolve as the heuristic says). Conversions that fail are counted, not judged. A case = one (operation, size, config) triple; non-trivial = at least one field Unspecified; distinct by construction (hash of the case)";
